@@ -36,6 +36,7 @@ type Exec struct {
 	paths     int
 	ends      int
 	Faulty    bool
+	ClockInstant bool
 	Errors    []string
 	nopanic   bool
 	debug     bool
@@ -584,6 +585,17 @@ func (x *Exec) doIf(st *State, fr *Frame, v *ssa.If) []*State {
 	}
 	if st.Known.has(Not(c).S) {
 		return x.enterBlock(st, fr, fb)
+	}
+	// solver-based feasibility pruning inside loops and once the function has many paths
+	if x.Mode != "summary" && (x.inLoop(fr.Fn, fr.Block) || x.paths > 150) {
+		if !x.feasible(st, c) {
+			st.assume(Not(c))
+			return x.enterBlock(st, fr, fb)
+		}
+		if !x.feasible(st, Not(c)) {
+			st.assume(c)
+			return x.enterBlock(st, fr, tb)
+		}
 	}
 	alt := st.clone()
 	afr := alt.top()
@@ -1249,6 +1261,14 @@ func goDivRem(quo bool, a, b Term) Term {
 		}
 		return IntT(xa % xb)
 	}
+	if xb, ok := litInt(b); ok && xb > 0 {
+		// positive constant divisor: truncation towards zero
+		q := Ite(Ge(a, IntT(0)), app("div", SInt, a, b), Sub(IntT(0), app("div", SInt, Sub(IntT(0), a), b)))
+		if quo {
+			return q
+		}
+		return Sub(a, Mul(b, q))
+	}
 	// SMT div is floor for positive divisor / euclidean; build truncation
 	absA := Ite(Ge(a, IntT(0)), a, Sub(IntT(0), a))
 	absB := Ite(Ge(b, IntT(0)), b, Sub(IntT(0), b))
@@ -1749,4 +1769,42 @@ func (x *Exec) assumeEntryHeapClosed(st *State) {
 			visit(mt, 0)
 		}
 	}
+}
+
+func (x *Exec) inLoop(fn *ssa.Function, b *ssa.BasicBlock) bool {
+	for _, h := range x.loops(fn).headers {
+		if h.body[b.Index] {
+			return true
+		}
+	}
+	return false
+}
+
+var feasCount, feasPruned int
+
+// feasible: false only when the solver proves the path condition plus cond unsatisfiable.
+func (x *Exec) feasible(st *State, cond Term) bool {
+	feasCount++
+	lines := st.Cmds.lines()
+	lines = sliceLines(lines, cond.S)
+	all := append(x.Reg.Relevant(lines, cond.S, true), dropQuantified(lines)...)
+	var b strings.Builder
+	b.WriteString("(set-logic ALL)\n")
+	for _, l := range all {
+		b.WriteString(l)
+		b.WriteByte('\n')
+	}
+	b.WriteString("(assert " + cond.S + ")\n(check-sat)\n")
+	dir := os.TempDir()
+	fn := dir + "/govc-feas-" + strconv.Itoa(os.Getpid()) + ".smt2"
+	if err := os.WriteFile(fn, []byte(b.String()), 0o644); err != nil {
+		return true
+	}
+	defer os.Remove(fn)
+	r, _ := raceSolve(fn, 2, 0, []string{"z3-new"}, false)
+	if r.Status == "unsat" {
+		feasPruned++
+		return false
+	}
+	return true
 }
